@@ -1,9 +1,12 @@
 package db19
 
 import (
+	"encoding/binary"
+
 	"github.com/apmckinlay/gsuneido/core"
 	"github.com/apmckinlay/gsuneido/db19/meta/schema"
 	"github.com/apmckinlay/gsuneido/db19/stor"
+	"github.com/apmckinlay/gsuneido/util/cksum"
 	rt "github.com/apmckinlay/gsuneido/zzverifrt"
 )
 
@@ -78,4 +81,22 @@ func vscan(t *ReadTran, table string, i int) (keys []string, offs []uint64) {
 		}
 	}
 	return
+}
+
+// vwriteStateAt writes a state record exactly as writeState does, but with a given time instead
+// of the wall clock (metadata offsets 0 = empty metadata)
+func vwriteStateAt(store *stor.Stor, t int64) uint64 {
+	off, buf := store.Alloc(stateLen)
+	copy(buf, magic1)
+	i := len(magic1)
+	binary.BigEndian.PutUint64(buf[i:], uint64(t))
+	i += dateSize
+	stor.WriteSmallOffset(buf[i:], 0)
+	i += stor.SmallOffsetLen
+	stor.WriteSmallOffset(buf[i:], 0)
+	i += stor.SmallOffsetLen
+	i += cksum.Len
+	cksum.Update(buf[:i])
+	copy(buf[i:], magic2)
+	return off
 }
